@@ -1176,6 +1176,14 @@ func (i *interpreter) rangeIter(x value, t types.Type) iter {
 		it := &omapIter{}
 		if x != nil {
 			it.snap = append(it.snap, x.entries...)
+			// Go leaves the iteration order of maps open: when the harness asks for it, the
+			// starting point of every small map range is a solver variable (rotation)
+			if n := len(it.snap); n >= 2 && n <= 6 && i.mapOrderFree() {
+				v, t := i.newVar("maporder", 8, 0, func(u uint64) bool { return u < uint64(n) })
+				i.addRecord(Record{Cond: i.tb.Cmp(term.BvUlt, t, i.tb.BV(8, uint64(n))), Taken: true, Kind: RecAssume})
+				r := int(i.concretize(sv{uint8(v), t}, "map-order").(uint8))
+				it.snap = append(append([]*mentry{}, it.snap[r:]...), it.snap[:r]...)
+			}
 		}
 		return it
 	case string:
@@ -1638,4 +1646,19 @@ func copyElems(s []value) []value {
 		return out
 	}
 	return s
+}
+
+// mapOrderFree tells whether the map range being executed belongs to a function for which
+// the check configuration asked to explore iteration orders.
+func (i *interpreter) mapOrderFree() bool {
+	if len(i.cfg.MapOrderFns) == 0 || i.curInstr == nil || i.curInstr.Parent() == nil {
+		return false
+	}
+	name := i.curInstr.Parent().String()
+	for _, f := range i.cfg.MapOrderFns {
+		if strings.Contains(name, f) {
+			return true
+		}
+	}
+	return false
 }
